@@ -48,7 +48,15 @@ type VBlock struct {
 	TimeNs   int64
 	Store    *VStore
 	NextVals []byte // NextValidatorsHash of the header
+	ChainID  string // chain id the block belongs to (differs from the virtual chain's for the foreign blocks)
 }
+
+// Special height indices: blocks of the "same" counterparty under a chain id of the previous / next
+// revision. They exist only as creation points of substitute clients (no headers are submitted for them).
+const (
+	ILowerRev  = 90 // (rev-1, Base+N+3): lower revision, numerically larger revision height
+	IHigherRev = 91 // (rev+1, 1): higher revision, numerically smaller revision height
+)
 
 // VChain is the virtual counterparty: a tree of properly signed alternative blocks.
 type VChain struct {
@@ -164,7 +172,7 @@ func buildVChain(p Params) *VChain {
 			if v == 2 {
 				next = c.Other.Set
 			}
-			b := &VBlock{I: i, V: v, Height: clienttypes.NewHeight(p.Rev, p.Base+uint64(i)), TimeNs: timeOf(i, v), Store: st, NextVals: next.Hash()}
+			b := &VBlock{I: i, V: v, Height: clienttypes.NewHeight(p.Rev, p.Base+uint64(i)), TimeNs: timeOf(i, v), Store: st, NextVals: next.Hash(), ChainID: c.ChainID}
 			c.blocks[[2]int{i, v}] = b
 			raw := RawHeader(c.ChainID, int64(b.Height.RevisionHeight), b.TimeNs, st.AppHash, c.Vals.Set, next)
 			h, err := ksim.SignHeader(raw, c.Vals, clienttypes.NewHeight(p.Rev, 1), c.Vals.Set)
@@ -178,6 +186,10 @@ func buildVChain(p Params) *VChain {
 			c.hdr[[2]int{i, v}] = bz
 		}
 	}
+	// foreign-revision blocks: same committed state as the newest canonical block, 2 s younger
+	top := c.blocks[[2]int{p.N, 0}]
+	c.blocks[[2]int{ILowerRev, 0}] = &VBlock{I: ILowerRev, Height: clienttypes.NewHeight(p.Rev-1, p.Base+uint64(p.N)+3), TimeNs: top.TimeNs + sec(2), Store: top.Store, NextVals: c.Vals.Set.Hash(), ChainID: fmt.Sprintf("virt-%d", p.Rev-1)}
+	c.blocks[[2]int{IHigherRev, 0}] = &VBlock{I: IHigherRev, Height: clienttypes.NewHeight(p.Rev+1, 1), TimeNs: top.TimeNs + sec(2), Store: top.Store, NextVals: c.Vals.Set.Hash(), ChainID: fmt.Sprintf("virt-%d", p.Rev+1)}
 	return c
 }
 
@@ -217,6 +229,9 @@ func (c *VChain) Has(i, v int) bool { _, ok := c.blocks[[2]int{i, v}]; return ok
 
 // H is the IBC height of block index i.
 func (c *VChain) H(i int) clienttypes.Height {
+	if i >= ILowerRev {
+		return c.Block(i, 0).Height
+	}
 	return clienttypes.NewHeight(c.P.Rev, c.P.Base+uint64(i))
 }
 
@@ -244,5 +259,9 @@ func (c *VChain) SameCons(i, v1, v2 int) bool {
 
 // ClientState builds a client state of the virtual chain at height index i.
 func (c *VChain) ClientState(i int, trusting time.Duration) *ibctm.ClientState {
-	return ibctm.NewClientState(c.ChainID, ibctm.DefaultTrustLevel, trusting, Unbonding, Drift, c.H(i), commitmenttypes.GetSDKSpecs(), ibctesting.UpgradePath)
+	chainID := c.ChainID
+	if i >= ILowerRev {
+		chainID = c.Block(i, 0).ChainID
+	}
+	return ibctm.NewClientState(chainID, ibctm.DefaultTrustLevel, trusting, Unbonding, Drift, c.H(i), commitmenttypes.GetSDKSpecs(), ibctesting.UpgradePath)
 }
